@@ -4,6 +4,7 @@ import (
 	"errors"
 	"io"
 	"sync"
+	"time"
 )
 
 // pipe is the in-memory serial line between host and simulator. Writes never block (both ends
@@ -23,6 +24,9 @@ type pipe struct {
 	txFailed  bool
 	hostGone  chan struct{} // closed when the host calls Close
 	onHostWr  func()        // optional: called (without lock) after each host write
+	// writeTime: how long a host write call takes after its bytes are on the line (a UART at 115200 baud needs
+	// 87 us per byte; the call returns when the bytes have left)
+	writeTime time.Duration
 }
 
 func newPipe(sched []int) *pipe {
@@ -83,7 +87,11 @@ func (h hostEnd) Write(b []byte) (int, error) {
 	}
 	p.toTNC = append(p.toTNC, b...)
 	p.cond.Broadcast()
+	d := p.writeTime
 	p.mu.Unlock()
+	if d > 0 {
+		time.Sleep(d)
+	}
 	return len(b), nil
 }
 
